@@ -316,6 +316,11 @@ def special_groups(tier, rng):
                     groups.append(grp)
             for bs in (1, 3, "d"):
                 groups.append([C02.bat_case(fs, m, bs, "all", list(range(len(fs.cols))), "special", verify=opts) for m in MODES])
+            if opts != "d":
+                # other column readers of the same chunks lived on the handle before / are re-created in between
+                n0 = len(fs.rows(0, 0))
+                groups.append([C02.bat_case(fs, m, 2, "all", list(range(len(fs.cols))), "special", verify=opts + ",p1") for m in MODES])
+                groups.append([C02.col_case(fs, 0, 0, m, f"r1,n,r{n0 + 1},n,s1,r{n0 + 1},m", "special", verify=opts) for m in MODES])
         # projections the file cannot satisfy: the same refusal in the three modes
         nc = len(fs.cols)
         for proj, want in ((f"i:0,{nc}", "OK E61 L1"), (f"i:{nc + 2}", "OK E61 L1"), (f"n:{fs.cols[0].name}_", "ERR create 61"),
